@@ -1,6 +1,7 @@
 // EX-E: virtual environment (files, environment variables, hostname, interface
 // table, clock, randomness, threads), library set-up, helpers.
 #include "exe.h"
+#include <functional>
 #include <dlfcn.h>
 #include <errno.h>
 #include <net/if.h>
@@ -156,8 +157,17 @@ static const char *v_indextoname(unsigned int idx, char *buf, size_t len)
 // The application's own interface table (installed with its socket functions) knows one interface more than the
 // operating system's (the interposed if_nametoindex / if_indextoname): vnet0 <-> 7. A channel that resolves interfaces
 // through anything but its own callbacks loses servers bound to it.
+// one-shot action the application performs from inside its own interface lookup callback (the library calls it, without
+// holding the channel lock, while a reload is still reading the configuration file)
+static std::function<void()> g_in_if_lookup;
+void set_if_lookup_action(std::function<void()> fn) { g_in_if_lookup = std::move(fn); }
 static unsigned int s_nametoindex(const char *name, void *)
 {
+  if (g_in_if_lookup) {
+    auto fn = std::move(g_in_if_lookup);
+    g_in_if_lookup = nullptr;
+    fn();
+  }
   if (name && !strcmp(name, "vnet0")) return 7;
   return v_nametoindex(name);
 }
